@@ -521,6 +521,7 @@ def oracles(ctx, prop, ex, component):
                 V("C08.one_position_two_ids", {"inv": k, "position": name, "ids": [id_of[name], oid]})
             if name_of.setdefault(oid, name) != name:
                 V("C08.one_id_two_positions", {"inv": k, "id": oid, "positions": [name_of[oid], name]})
+    closed_before = set()
     for k, inv in enumerate(ex["invs"]):
         has_block = any(a["a"] == "block" for b in sc["blocks"] for br in b.get("branches", []) for a in br)
         if (inv["hung"] or inv["limit"]) and has_block and not inv["batches"]:
@@ -633,14 +634,16 @@ def oracles(ctx, prop, ex, component):
             if o != "ok":
                 continue
         order = [(name, action, typ) for t, us, o in inv["log"] if o == "ok" for name, action, typ in us]
-        closed = set()
+        closed = set(closed_before)      # blocks whose completion record an earlier invocation delivered stay closed
         for name, action, typ in order:
             if name and name.startswith("p:") and typ == "CONTEXT" and action in ("SUCCEED", "FAIL"):
                 closed.add(int(name[2:]) - 1)
             elif name and name.startswith("b") and "/" in name:
                 blkno = int(name[1:].split(".")[0])
                 if blkno in closed:
-                    V("C10.update_under_completed_context_reached_backend", {"inv": k, "update": [name, action, typ], "block": blkno})
+                    V("C10.update_under_completed_context_reached_backend", {"inv": k, "update": [name, action, typ], "block": blkno,
+                                                                             "completed_in_an_earlier_invocation": blkno in closed_before})
+        closed_before |= closed
         # once the completion record of block n has been handed over (enqueued), nothing from its descendants is
         # handed over any more; and no user function of a descendant operation is entered whose START came after it
         closed_ev = set()
@@ -838,6 +841,18 @@ def gen_error_replay(rng):
     return sc
 
 
+def gen_refresh_fault(rng):
+    """A branch parked on a timer that fires while a sibling is still in user code, and that sibling then ends WITHOUT
+    another checkpoint (it awaits a callback it started earlier): if the timer thread's refresh checkpoint fails, nobody
+    else will notice - the failure has to end the invocation from the timer thread."""
+    a = [{"a": "wait", "secs": rng.choice([1, 2])}, {"a": "step", "out": {"ok": "i5"}, "yield": 1}]
+    c = [{"a": "cbnew"}, {"a": "sleep", "secs": rng.choice([3, 4])}, {"a": "cbres"}]
+    branches = [a, c] if rng.random() < 0.5 else [c, a]
+    if rng.random() < 0.3:
+        branches.append([{"a": "cb"}])
+    return {"blocks": [{"kind": rng.choice(["map", "parallel"]), "branches": branches, "max_concurrency": None}], "completion": {}}
+
+
 def gen_large_early(rng):
     """Early decision with branches still unstarted or running, a result over the (patched) checkpoint limit, and a later
     suspension: the batch is rebuilt from its children on replay."""
@@ -977,6 +992,14 @@ def run_fault(ctx, prop, n_quick=80, n_thorough=2500):
     for i in range(ctx.scale(n_quick, n_thorough)):
         sc = gen_scenario(ctx.rng)
         one(ctx, prop, sc, ctx.rng.randrange(1 << 30), component="executor.fault", fault={"at": ctx.rng.randrange(0, 5), "exc": InjectedFault})
+
+
+def run_refresh_fault(ctx, prop, n_quick=6, n_thorough=120):
+    """gen_refresh_fault with the failing API call at every index in turn (one of them is the refresh checkpoint)."""
+    for i in range(ctx.scale(n_quick, n_thorough)):
+        sc = gen_refresh_fault(ctx.rng)
+        for at in range(1, 7):
+            one(ctx, prop, sc, ctx.rng.randrange(1 << 30), component="executor.refresh_fault", fault={"at": at, "exc": InjectedFault})
 
 
 def replay(ctx, rec, prop="C09"):
